@@ -1,4 +1,5 @@
 import PT.Lemmas.Diff
+import PT.Lemmas.Inter
 /-!
 # C07 — Difference and covering difference select exactly the specified left entries
 
@@ -119,5 +120,67 @@ theorem difference_empty_right (a : Tree w L) (hwa : HasWF a) :
   induction A with
   | nil => rfl
   | cons x xs ih => simp only [List.filterMap_cons, List.map_cons, ih]
+
+/-! ### relation to `intersection` and between the two differences -/
+
+theorem interS_diffS_length (A : KL w L) (B : KL w R) (base : Lpm w R) :
+    (interS A B).length + (diffS A B base).length = A.length := by
+  unfold interS diffS
+  induction A with
+  | nil => rfl
+  | cons x xs ih =>
+    simp only [List.filterMap_cons, List.length_cons]
+    cases lookupK B (keyOf x) with
+    | some y => simp only [Option.map_some, List.length_cons]; omega
+    | none => simp only [Option.map_none, List.length_cons]; omega
+
+/-- every entry of `a` is yielded by exactly one of `intersection(a, b)` and `difference(a, b)` -/
+theorem difference_intersection_partition (a : Tree w L) (b : Tree w R) (hwa : HasWF a) (hwb : HasWF b) :
+    (intersection a b).length + (difference a b).length = a.slotEntries.length := by
+  rw [intersection_eq a b hwa hwb, difference_spec a b hwa hwb]
+  exact interS_diffS_length _ _ _
+
+/-- `intersection` and `difference` never yield the same left node -/
+theorem difference_intersection_disjoint (a : Tree w L) (b : Tree w R) (hwa : HasWF a) (hwb : HasWF b)
+    (i : IItem w L R) (hi : i ∈ intersection a b) (d : DItem w L R) (hd : d ∈ difference a b) :
+    i.p.net ≠ d.p.net := by
+  rw [intersection_eq a b hwa hwb] at hi
+  rw [difference_spec a b hwa hwb] at hd
+  unfold interS at hi; unfold diffS at hd
+  rw [List.mem_filterMap] at hi hd
+  obtain ⟨x, hx, hxi⟩ := hi
+  obtain ⟨y, hy, hyd⟩ := hd
+  intro hnet
+  cases hlx : lookupK b.slotEntries (keyOf x) with
+  | none => simp [hlx] at hxi
+  | some bx =>
+    simp only [hlx, Option.map_some, Option.some.injEq] at hxi
+    have hkx : keyOf x = i.p.net := by rw [← hxi]; rfl
+    cases hly : lookupK b.slotEntries (keyOf y) with
+    | some by' => simp [hly] at hyd
+    | none =>
+      simp only [hly, Option.some.injEq] at hyd
+      have hky : keyOf y = d.p.net := by rw [← hyd]; rfl
+      rw [hkx, hnet, ← hky, hly] at hlx
+      exact absurd hlx (by simp)
+/-- whatever `covering_difference(a, b)` yields, `difference(a, b)` yields too (an equal prefix
+covers): same left node, same stored prefix, same value -/
+theorem coveringDifference_subset_difference (a : Tree w L) (b : Tree w R) (hwa : HasWF a) (hwb : HasWF b)
+    (c : DItem w L R) (hc : c ∈ coveringDifference a b) :
+    ∃ d ∈ difference a b, d.p = c.p ∧ d.v = c.v := by
+  rw [coveringDifference_spec a b hwa hwb] at hc
+  rw [difference_spec a b hwa hwb]
+  unfold covDiffS at hc; unfold diffS
+  rw [List.mem_filterMap] at hc
+  obtain ⟨x, hx, hxc⟩ := hc
+  by_cases he : (coverK b.slotEntries x.2.1).isEmpty = true
+  · simp only [he, ite_true, Option.some.injEq] at hxc
+    have hnil : coverK b.slotEntries x.2.1 = [] := List.isEmpty_iff.mp he
+    have hl : lookupK b.slotEntries (keyOf x) = none := lookupK_of_cover_nil hnil
+    refine ⟨⟨x.2.1, (x.1, x.2.2), orE (lpmK b.slotEntries x.2.1) none⟩, ?_, ?_, ?_⟩
+    · rw [List.mem_filterMap]; exact ⟨x, hx, by simp only [hl]⟩
+    · rw [← hxc]
+    · rw [← hxc]
+  · simp [he] at hxc
 
 end PT.C07
